@@ -277,6 +277,36 @@ def run(ctx):
     ctx.cov["oracle"]["tls_stalls"] = {"cases": len(tscs), "modes": ["STARTTLS reply", "handshake after 220 (required / opportunistic)", "wrapper-mode handshake"]}
     ctx.cov["oracle"]["stall_matrix_timing"] = {"connection_level": len(impl), "transport_level": len(pscs), "write_stall": len(wscs), "failures": len(obad), "known_class_hits": hits,
                                                 "bounds": "T - 25 ms <= elapsed <= 2T + %d ms (4T + slack when a stalled NOOP probe is followed by a fresh connection)" % SLACK}
+    # ---- a name that resolves to several addresses, some of which do not answer at all (SYN dropped): every attempt is bounded by T, so n silent
+    #      addresses fail with a timeout within n x T (+ slack); a silent address followed by a live one still connects
+    from smtp import step as _step
+    TM = 300
+    mscs = []
+    for addrs in (["hole"], ["hole", "hole"], ["hole", "hole", "hole"], ["hole", "server"], ["server", "hole"]):
+        for fl in ("sync", "tokio"):
+            mscs.append({"id": 700000 + len(mscs), "flavor": fl, "timeout_ms": TM, "hang_ms": 9000, "servers": [[_step("none", b"220 hi\r\n"), _step("line", b"250 srv\r\n"), _step("line", b"221 bye\r\n")]],
+                         "ops": [{"op": "connect_multi", "hello": hx(b"multi.test"), "addrs": addrs}, {"op": "quit"}], "addrs": addrs})
+    mbad = []
+    for sc, r in zip(mscs, run_scenarios(mscs)):
+        ctx.count(); ctx.cls("multi-address/" + sc["flavor"])
+        res = r.get("results")
+        if res in ("HANG", "PANIC") or "error" in r:
+            mbad.append((sc, "connecting to the addresses %s with T = %d ms: %s" % (sc["addrs"], TM, res or r.get("error")))); continue
+        first = str(res[0])
+        if first.startswith("skip"):
+            ctx.note("multi-address connect: %s" % first); continue
+        nh = sc["addrs"].count("hole")
+        if "server" in sc["addrs"]:
+            if not first.startswith("ok,"):
+                mbad.append((sc, "one of the addresses %s answers, yet the connection failed: %s" % (sc["addrs"], first)))
+        else:
+            f = first.split(",")
+            took = int(f[-1])
+            if not first.startswith("err,") or f[4] != "1" or took > nh * TM + 900:
+                mbad.append((sc, "%d silent addresses, T = %d ms: expected a timeout error within %d ms, got %s" % (nh, TM, nh * TM + 900, first)))
+    ctx.cov["oracle"]["multi_address_connect_bounded"] = {"scenarios": len(mscs), "failures": len(mbad)}
+    if mbad:
+        ctx.violation({"kind": "oracle", "entry": "connect to several addresses", "what": mbad[0][1], "scenario": {k: mbad[0][0][k] for k in ("flavor", "ops", "timeout_ms")}, "failures": len(mbad)})
     ctx.cov["correspondence"]["client_model_on_stall_scripts"] = {"scenarios": len(scs), "flavors": ["sync", "tokio"], "disagreements": len(cbad)}
     ctx.cov["rule"] = ("stall positions greeting, EHLO, AUTH PLAIN, both LOGIN challenges and the final AUTH reply, MAIL, each of two RCPT, DATA, end-of-data, NOOP, QUIT x {nothing, half a reply line, first line of a multi-line reply} x T in %s ms, "
                        "sync and tokio connections (the reply held back 5T+300 ms); transports with max_size 0 and 2: the 2nd GREET/EHLO/MAIL/RCPT/DATA/end-of-data and the 1st NOOP probe stalled, four sends; a server that stops reading a 24 MB message. "
